@@ -75,27 +75,89 @@ func pathOfX(v ssa.Value) string {
 }
 
 // trivialGetter: the single returned value of a function whose only block computes it without calls (other than len/cap),
-// stores or allocations.
+// stores or allocations — also behind the usual nil-receiver guard (`if x == nil { return <constant> }`).
+var getterCache = map[*ssa.Function]ssa.Value{}
+var getterKnown = map[*ssa.Function]bool{}
+
 func trivialGetter(f *ssa.Function) ssa.Value {
-	if f == nil || len(f.Blocks) != 1 || f.Signature.Results().Len() != 1 {
+	if f == nil {
 		return nil
 	}
-	var ret ssa.Value
-	for _, in := range f.Blocks[0].Instrs {
-		switch x := in.(type) {
-		case *ssa.FieldAddr, *ssa.Field, *ssa.UnOp, *ssa.BinOp, *ssa.IndexAddr, *ssa.Index, *ssa.Convert, *ssa.ChangeType, *ssa.DebugRef, *ssa.Slice, *ssa.Lookup:
-		case *ssa.Call:
-			if b, ok := x.Call.Value.(*ssa.Builtin); !ok || (b.Name() != "len" && b.Name() != "cap") {
-				return nil
+	if getterKnown[f] {
+		return getterCache[f]
+	}
+	getterKnown[f] = true
+	getterCache[f] = trivialGetter0(f)
+	return getterCache[f]
+}
+
+func trivialGetter0(f *ssa.Function) ssa.Value {
+	if len(f.Blocks) == 0 || f.Signature.Results().Len() != 1 || len(f.Params) == 0 {
+		return nil
+	}
+	pureBlock := func(b *ssa.BasicBlock) (ssa.Value, bool) {
+		var ret ssa.Value
+		for _, in := range b.Instrs {
+			switch x := in.(type) {
+			case *ssa.FieldAddr, *ssa.Field, *ssa.UnOp, *ssa.BinOp, *ssa.IndexAddr, *ssa.Index, *ssa.Convert, *ssa.ChangeType, *ssa.DebugRef, *ssa.Slice, *ssa.Lookup:
+			case *ssa.Call:
+				if b, ok := x.Call.Value.(*ssa.Builtin); !ok || (b.Name() != "len" && b.Name() != "cap") {
+					return nil, false
+				}
+			case *ssa.Return:
+				ret = x.Results[0]
+			case *ssa.If:
+			default:
+				return nil, false
 			}
-		case *ssa.Return:
-			ret = x.Results[0]
-		default:
+		}
+		return ret, true
+	}
+	switch len(f.Blocks) {
+	case 1:
+		r, ok := pureBlock(f.Blocks[0])
+		if !ok {
 			return nil
 		}
+		return r
+	case 3:
+		// entry: if recv == nil goto A else B; A: return const; B: return expr
+		e := f.Blocks[0]
+		iff, ok := e.Instrs[len(e.Instrs)-1].(*ssa.If)
+		if !ok || len(e.Instrs) != 2 {
+			return nil
+		}
+		bo, ok := iff.Cond.(*ssa.BinOp)
+		if !ok || (bo.Op != token.EQL && bo.Op != token.NEQ) || bo != e.Instrs[0] {
+			return nil
+		}
+		isNilK := func(v ssa.Value) bool { k, ok := v.(*ssa.Const); return ok && k.Value == nil }
+		if !((bo.X == ssa.Value(f.Params[0]) && isNilK(bo.Y)) || (bo.Y == ssa.Value(f.Params[0]) && isNilK(bo.X))) {
+			return nil
+		}
+		nilB, valB := e.Succs[0], e.Succs[1]
+		if bo.Op == token.NEQ {
+			nilB, valB = valB, nilB
+		}
+		if r, ok := pureBlock(nilB); !ok || r == nil {
+			return nil
+		} else if _, isConst := r.(*ssa.Const); !isConst || len(nilB.Instrs) != 1 {
+			return nil
+		}
+		r, ok := pureBlock(valB)
+		if !ok {
+			return nil
+		}
+		return r
 	}
-	return ret
+	return nil
 }
+
+// getterKeep: per function of the pinned tree, the trivial accessors it already called there (printed as calls, as the
+// rules' patterns expect); any other call of a trivial accessor prints as the expression it returns, which is what the
+// pinned code reads at that place if a field access was replaced by its getter.
+var getterKeep = map[*ssa.Function]map[string]bool{}
+var getterExpandAll = false
 
 func pathOf(v ssa.Value) string {
 	return normPath((&pathCtx{phis: map[*ssa.Phi]bool{}}).path(v))
@@ -204,14 +266,24 @@ func (c *pathCtx) path(v ssa.Value) string {
 	case *ssa.Extract:
 		return c.path(x.Tuple) + fmt.Sprintf("#%d", x.Index)
 	case *ssa.Call:
-		if c.getters {
+		expand := c.getters
+		if !expand && x.Parent() != nil {
+			if f := x.Call.StaticCallee(); f != nil && trivialGetter(f) != nil {
+				keep, frozenFn := getterKeep[x.Parent()]
+				if p := x.Parent().Parent(); !frozenFn && p != nil {
+					keep, frozenFn = getterKeep[p]
+				}
+				expand = frozenFn && !keep[f.String()]
+			}
+		}
+		if expand {
 			if f := x.Call.StaticCallee(); f != nil && len(f.Params) == len(x.Call.Args) {
 				if r := trivialGetter(f); r != nil {
 					sub := map[ssa.Value]string{}
 					for i, p := range f.Params {
 						sub[p] = c.path(x.Call.Args[i])
 					}
-					inner := &pathCtx{depth: c.depth, phis: c.phis, getters: true, subst: sub}
+					inner := &pathCtx{depth: c.depth, phis: c.phis, getters: c.getters, subst: sub}
 					return inner.path(r)
 				}
 			}
